@@ -10,11 +10,16 @@ use crate::util::classic_canonical;
 use crate::util::Kv;
 use cosmwasm_std::testing::MockApi;
 use cosmwasm_std::{
-    coin, to_json_binary, to_json_string, to_json_vec, Addr, Api, BankMsg, BankQuery, Binary, Coin, ContractInfoResponse, CosmosMsg, Event, QueryRequest, ReplyOn, SubMsg, Uint128, WasmMsg, WasmQuery,
+    coin, DistributionMsg, StakingMsg, StakingQuery, to_json_binary, to_json_string, to_json_vec, Addr, Api, BankMsg, BankQuery, Binary, Coin, ContractInfoResponse, CosmosMsg, Event, QueryRequest, ReplyOn, SubMsg, Uint128, WasmMsg, WasmQuery,
 };
 use std::collections::{BTreeMap, BTreeSet};
 
 pub const STAKING_MODULE: &str = "staking_module";
+pub const BONDED: &str = "TOKEN";
+
+pub fn validator_obj(address: &str) -> cosmwasm_std::Validator {
+    cosmwasm_std::Validator::new(address.to_string(), cosmwasm_std::Decimal::zero(), cosmwasm_std::Decimal::percent(20), cosmwasm_std::Decimal::percent(1))
+}
 
 #[derive(Clone, Debug, PartialEq, Eq)]
 pub struct CInfo {
@@ -43,6 +48,11 @@ pub struct MState {
     pub order: Vec<String>,
     pub xmarks: BTreeMap<u32, String>,
     pub block: (u64, u64, String),
+    /// (delegator, validator) -> whole tokens (no slashing and a zero rate inside the tree engine)
+    pub deleg: BTreeMap<(String, String), u128>,
+    /// FIFO of pending unbondings: (delegator, validator, amount, payout time in nanos)
+    pub unbond: Vec<(String, String, u128, u64)>,
+    pub withdraw: BTreeMap<String, String>,
 }
 
 /// Everything that transactions cannot change.
@@ -52,6 +62,8 @@ pub struct Fixed {
     pub users: Vec<String>,
     pub fresh: Vec<String>,
     pub nowhere: String,
+    pub validators: Vec<String>,
+    pub unbonding_time: u64,
 }
 
 #[derive(Clone, Debug, PartialEq, Eq, PartialOrd, Ord)]
@@ -271,6 +283,28 @@ impl<'a> Interp<'a> {
         }
     }
 
+    pub fn vref(&self, v: u8) -> String {
+        if v == 255 || self.fx.validators.is_empty() {
+            "nobody".to_string()
+        } else {
+            self.fx.validators[v as usize % self.fx.validators.len()].clone()
+        }
+    }
+
+    /// an amount relative to the sender's delegation at that validator
+    fn stake_coin(&self, sender: &str, validator: &str, c: &CoinSpec) -> Coin {
+        let d = DENOMS[c.denom as usize % 3];
+        let b = self.st.deleg.get(&(sender.to_string(), validator.to_string())).copied().unwrap_or(0);
+        let a = match c.amt {
+            Amt::Exact(n) => n,
+            Amt::Bal => b,
+            Amt::BalPlus(n) => b.saturating_add(n),
+            Amt::BalMinus(n) => b.saturating_sub(n),
+            Amt::Half => b / 2,
+        };
+        coin(a, d)
+    }
+
     pub fn bal(&self, addr: &str, denom: &str) -> u128 {
         self.st.bank.get(addr).and_then(|m| m.get(denom)).copied().unwrap_or(0)
     }
@@ -311,8 +345,16 @@ impl<'a> Interp<'a> {
             Msg::Send { to, coins } => BankMsg::Send { to_address: self.aref(*to), amount: self.coins(sender, coins) }.into(),
             Msg::Burn { coins } => BankMsg::Burn { amount: self.coins(sender, coins) }.into(),
             Msg::Custom { tag, fail } => CosmosMsg::Custom(XMsg { tag: *tag, fail: *fail }),
-            // staking messages are resolved by the staking-aware generator only (not generated here)
-            Msg::Delegate { .. } | Msg::Undelegate { .. } | Msg::Redelegate { .. } | Msg::SetWithdraw { .. } => CosmosMsg::Custom(XMsg { tag: 0, fail: true }),
+            Msg::Delegate { v, amt } => StakingMsg::Delegate { validator: self.vref(*v), amount: self.coins(sender, std::slice::from_ref(amt)).remove(0) }.into(),
+            Msg::Undelegate { v, amt } => {
+                let val = self.vref(*v);
+                StakingMsg::Undelegate { amount: self.stake_coin(sender, &val, amt), validator: val }.into()
+            }
+            Msg::Redelegate { src, dst, amt } => {
+                let val = self.vref(*src);
+                StakingMsg::Redelegate { amount: self.stake_coin(sender, &val, amt), src_validator: val, dst_validator: self.vref(*dst) }.into()
+            }
+            Msg::SetWithdraw { to } => DistributionMsg::SetWithdrawAddress { address: self.aref(*to) }.into(),
         }
     }
 
@@ -327,7 +369,10 @@ impl<'a> Interp<'a> {
             QSpec::CodeInfo(k) => WasmQuery::CodeInfo { code_id: self.kref(*k) }.into(),
             QSpec::Smart(c, q) => WasmQuery::Smart { contract_addr: self.cref(*c), msg: Self::pmsg(*q) }.into(),
             QSpec::Custom(t) => QueryRequest::Custom(XQuery { tag: *t }),
-            QSpec::BondedDenom | QSpec::Delegation(..) | QSpec::AllDelegations(..) | QSpec::AllValidators => QueryRequest::Custom(XQuery { tag: 0 }),
+            QSpec::BondedDenom => StakingQuery::BondedDenom {}.into(),
+            QSpec::Delegation(a, v) => StakingQuery::Delegation { delegator: self.aref(*a), validator: self.vref(*v) }.into(),
+            QSpec::AllDelegations(a) => StakingQuery::AllDelegations { delegator: self.aref(*a) }.into(),
+            QSpec::AllValidators => StakingQuery::AllValidators {}.into(),
         }
     }
 
@@ -471,7 +516,32 @@ impl<'a> Interp<'a> {
                 }
                 Ok(query_answer(code.tag, &reads, &qres))
             }
-            QSpec::BondedDenom | QSpec::Delegation(..) | QSpec::AllDelegations(..) | QSpec::AllValidators => self.eval_query(view, &QSpec::Custom(0), depth),
+            QSpec::BondedDenom => ok(to_json_string(&cosmwasm_std::BondedDenomResponse::new(BONDED.to_string()))),
+            QSpec::Delegation(a, v) => {
+                let (d, val) = (self.aref(*a), self.vref(*v));
+                if !self.fx.validators.contains(&val) || !Self::valid_addr(&d) {
+                    return Err(());
+                }
+                let amount = view.deleg.get(&(d.clone(), val.clone())).copied().unwrap_or(0);
+                let r = if amount == 0 {
+                    cosmwasm_std::DelegationResponse::new(None)
+                } else {
+                    cosmwasm_std::DelegationResponse::new(Some(cosmwasm_std::FullDelegation::new(Addr::unchecked(d), val, coin(amount, BONDED), coin(amount, BONDED), vec![])))
+                };
+                ok(to_json_string(&r))
+            }
+            QSpec::AllDelegations(a) => {
+                let d = self.aref(*a);
+                if !Self::valid_addr(&d) {
+                    return Err(());
+                }
+                let list: Vec<cosmwasm_std::Delegation> = self.fx.validators.iter().filter_map(|val| view.deleg.get(&(d.clone(), val.clone())).filter(|x| **x > 0).map(|x| cosmwasm_std::Delegation::new(Addr::unchecked(d.clone()), val.clone(), coin(*x, BONDED)))).collect();
+                ok(to_json_string(&cosmwasm_std::AllDelegationsResponse::new(list)))
+            }
+            QSpec::AllValidators => {
+                let list: Vec<cosmwasm_std::Validator> = self.fx.validators.iter().map(|v| validator_obj(v)).collect();
+                ok(to_json_string(&cosmwasm_std::AllValidatorsResponse::new(list)))
+            }
         }
     }
 
@@ -633,6 +703,10 @@ impl<'a> Interp<'a> {
                 BankMsg::Burn { amount }.into()
             }
             CosmosMsg::Custom(x) => CosmosMsg::Custom(XMsg { tag: x.tag, fail: true }),
+            CosmosMsg::Staking(StakingMsg::Delegate { validator, .. }) => StakingMsg::Delegate { validator, amount: coin(0, BONDED) }.into(),
+            CosmosMsg::Staking(StakingMsg::Undelegate { validator, .. }) => StakingMsg::Undelegate { validator, amount: coin(0, BONDED) }.into(),
+            CosmosMsg::Staking(StakingMsg::Redelegate { src_validator, .. }) => StakingMsg::Redelegate { src_validator, dst_validator: "nobody".into(), amount: coin(0, BONDED) }.into(),
+            CosmosMsg::Distribution(DistributionMsg::SetWithdrawAddress { .. }) => DistributionMsg::SetWithdrawAddress { address: "not an address".into() }.into(),
             other => other,
         }
     }
@@ -810,6 +884,85 @@ impl<'a> Interp<'a> {
                 let r = self.compose(contract_addr, entry, out, node, depth)?;
                 Ok(Resp { events: r.events, data: wrap_execute(r.data) })
             }
+            CosmosMsg::Staking(StakingMsg::Delegate { validator, amount }) => {
+                if let Some(s) = site.clone() {
+                    self.sites.push(s);
+                }
+                let a = amount.amount.u128();
+                let ok = a > 0 && amount.denom == BONDED && self.fx.validators.contains(validator);
+                if ok {
+                    *self.st.deleg.entry((sender.to_string(), validator.clone())).or_insert(0) += a;
+                }
+                if !ok || self.bank_send(sender, STAKING_MODULE, std::slice::from_ref(amount)).is_err() {
+                    self.failures += 1;
+                    self.last_fail = Some(Why::Plain);
+                    return Err(());
+                }
+                Ok(Resp { events: vec![Event::new("delegate").add_attribute("validator", validator).add_attribute("amount", format!("{}{}", amount.amount, amount.denom)).add_attribute("new_shares", amount.amount.to_string())], data: None })
+            }
+            CosmosMsg::Staking(StakingMsg::Undelegate { validator, amount }) => {
+                if let Some(s) = site.clone() {
+                    self.sites.push(s);
+                }
+                let a = amount.amount.u128();
+                let key = (sender.to_string(), validator.clone());
+                let have = self.st.deleg.get(&key).copied();
+                let ok = amount.denom == BONDED && a > 0 && self.fx.validators.contains(validator) && have.map_or(false, |h| a <= h);
+                if !ok {
+                    self.failures += 1;
+                    self.last_fail = Some(Why::Plain);
+                    return Err(());
+                }
+                let rest = have.unwrap() - a;
+                if rest == 0 {
+                    self.st.deleg.remove(&key);
+                } else {
+                    self.st.deleg.insert(key, rest);
+                }
+                let payout = self.st.block.1 + self.fx.unbonding_time * 1_000_000_000;
+                self.st.unbond.push((sender.to_string(), validator.clone(), a, payout));
+                Ok(Resp { events: vec![Event::new("unbond").add_attribute("validator", validator).add_attribute("amount", format!("{}{}", amount.amount, amount.denom)).add_attribute("completion_time", "2022-09-27T14:00:00+00:00")], data: None })
+            }
+            CosmosMsg::Staking(StakingMsg::Redelegate { src_validator, dst_validator, amount }) => {
+                if let Some(s) = site.clone() {
+                    self.sites.push(s);
+                }
+                let a = amount.amount.u128();
+                let key = (sender.to_string(), src_validator.clone());
+                let have = self.st.deleg.get(&key).copied();
+                let ok = amount.denom == BONDED && self.fx.validators.contains(src_validator) && self.fx.validators.contains(dst_validator) && have.map_or(false, |h| a <= h);
+                if !ok {
+                    self.failures += 1;
+                    self.last_fail = Some(Why::Plain);
+                    return Err(());
+                }
+                let rest = have.unwrap() - a;
+                if rest == 0 {
+                    self.st.deleg.remove(&key);
+                } else {
+                    self.st.deleg.insert(key, rest);
+                }
+                if a > 0 {
+                    *self.st.deleg.entry((sender.to_string(), dst_validator.clone())).or_insert(0) += a;
+                }
+                Ok(Resp { events: vec![Event::new("redelegate").add_attribute("source_validator", src_validator).add_attribute("destination_validator", dst_validator).add_attribute("amount", format!("{}{}", amount.amount, amount.denom))], data: None })
+            }
+            CosmosMsg::Distribution(DistributionMsg::SetWithdrawAddress { address }) => {
+                if let Some(s) = site.clone() {
+                    self.sites.push(s);
+                }
+                if !Self::valid_addr(address) {
+                    self.failures += 1;
+                    self.last_fail = Some(Why::Plain);
+                    return Err(());
+                }
+                if address == sender {
+                    self.st.withdraw.remove(sender);
+                } else {
+                    self.st.withdraw.insert(sender.to_string(), address.clone());
+                }
+                Ok(Resp { events: vec![Event::new("set_withdraw_address").add_attribute("withdraw_address", address)], data: None })
+            }
             CosmosMsg::Wasm(WasmMsg::UpdateAdmin { contract_addr, admin }) => self.set_admin(sender, contract_addr, Some(admin.clone())),
             CosmosMsg::Wasm(WasmMsg::ClearAdmin { contract_addr }) => self.set_admin(sender, contract_addr, None),
             _ => {
@@ -960,6 +1113,22 @@ impl<'a> Interp<'a> {
             return Err(());
         }
         Ok(Resp { events: vec![], data: None })
+    }
+}
+
+/// Block update: matured unbondings are paid from the staking pool, front of the queue first.
+pub fn process_queue(st: &mut MState) {
+    let now = st.block.1;
+    while let Some((d, _v, a, at)) = st.unbond.first().cloned() {
+        if at > now {
+            break;
+        }
+        st.unbond.remove(0);
+        if a > 0 {
+            let pool = st.bank.entry(STAKING_MODULE.to_string()).or_default().entry(BONDED.to_string()).or_insert(0);
+            *pool = pool.saturating_sub(a);
+            *st.bank.entry(d).or_default().entry(BONDED.to_string()).or_insert(0) += a;
+        }
     }
 }
 
